@@ -44,6 +44,8 @@ def ev_call(st, n):
     if isinstance(f, ast.Attribute) and isinstance(f.value, ast.Call) and \
             isinstance(f.value.func, ast.Name) and f.value.func.id == 'super':
         return call_super(st, n)
+    if isinstance(f, ast.Name) and f.id == 'zip' and len(n.args) == 1 and isinstance(n.args[0], ast.Starred):
+        return unzip(st, E.ev(st, n.args[0].value))
     fv = E.ev(st, f)
     args = []
     for a in n.args:
@@ -104,6 +106,34 @@ def apply_value(st, fv, args, kwargs, n=None):
             raise Undecided('nested function %s needs a contract' % key)
         return call_contract(st, c, args, kwargs, n, closure_env=f.env)
     raise Undecided('call of %r' % (f,))
+
+
+def unzip(st, lv):
+    """zip(*L) for a list L of n-tuples: an iterable of n tuples (sequences of the components).
+    For empty L the result is empty (unpacking it raises ValueError)."""
+    s, et = B.seq_of(st, lv)
+    if et.kind != 'tuple':
+        raise Undecided('zip(*x) over %r' % (et,))
+    dt = T.sort_of(et)
+    comps = []
+    for i, ct in enumerate(et.args):
+        r = B.seq_fresh(st, T.sort_of(ct), 'unz%d' % i)
+        k = z3.Int('k!uz%d' % i)
+        st.assume(r.n == s.n)
+        st.assume(z3.ForAll([k], z3.Implies(z3.And(0 <= k, k < s.n),
+                                            z3.Select(r.arr, k) == dt.accessor(0, i)(z3.Select(s.arr, k))),
+                            patterns=[z3.Select(r.arr, k)]))
+        st.assume(z3.ForAll([k], z3.Implies(z3.And(0 <= k, k < s.n),
+                                            z3.Select(r.arr, k) == dt.accessor(0, i)(z3.Select(s.arr, k))),
+                            patterns=[z3.Select(s.arr, k)]))
+        if st.spec:
+            comps.append(Val(T.TSeq(ct), r))
+        else:
+            comps.append(B.new_tuple_obj(st, r, ct))
+    if not st.spec:
+        if not st.branch(s.n > 0):
+            return Val(T.Ty('xtuple'), ())
+    return Val(T.Ty('xtuple'), tuple(comps))
 
 
 def _eval_in(st, body, env):
@@ -199,10 +229,17 @@ def eval_modifies(st, c, env):
 
 def eval_mod_entry(st, m, env):
     m = m.strip()
+    if m == 'fresh':
+        return [('fresh', None, None)]
     if m.endswith('.*'):
         v = E.eval_spec(st, m[:-2], env)
         return [('allfields', v.t.name, v.z)]
     node = E.parse_spec(m)
+    if isinstance(node, ast.Attribute) and isinstance(node.value, ast.Call) and \
+            isinstance(node.value.func, ast.Name) and node.value.func.id == 'any':
+        cls = node.value.args[0].id
+        key, ty = st.field_key(cls, node.attr)
+        return [('anyfield', key, None)]
     if isinstance(node, ast.Call) and isinstance(node.func, ast.Name) and node.func.id == 'contents':
         v = E.eval_spec(st, node.args[0], env)
         return [('contents', v.t, v.z)]
@@ -224,6 +261,12 @@ def havoc(st, targets):
             st.heap[k] = z3.Store(arr, r, st.fresh(T.sort_of(ty), 'hv_' + fname))
         elif kind == 'contents':
             havoc_contents(st, k, r)
+        elif kind == 'fresh':
+            st.havoc_fresh_region()
+        elif kind == 'anyfield':
+            cls, fname = k.split('.', 1)
+            _, ty = R.find_field(cls, fname)
+            st.heap[k] = st.fresh(z3.ArraySort(I, T.sort_of(ty)), 'hvall_' + fname)
         elif kind == 'allfields':
             seen = set()
             for cn in R.mro(k):
@@ -406,6 +449,7 @@ def _quant(st, n, is_forall):
     tag = st.nfresh
     saved = st.locals
     st.locals = dict(saved)
+    st.qdepth += 1
     try:
         guards = []
         vars_ = []
@@ -460,6 +504,7 @@ def _quant(st, n, is_forall):
                 pats.append(z3.MultiPattern(*zs) if len(zs) > 1 else zs[0])
     finally:
         st.locals = saved
+        st.qdepth -= 1
     g = z3.And(guards) if guards else z3.BoolVal(True)
     if is_forall:
         return E.mk_bool(z3.ForAll(vars_, z3.Implies(g, body), patterns=pats))
@@ -495,7 +540,32 @@ def sf_super(st, n):
     raise Undecided('bare super() value')
 
 
-_SYNTACTIC = {'old': sf_old, 'implies': sf_implies, 'iff': sf_iff, 'forall': sf_forall,
+def sf_cast(st, n):
+    v = E.ev(st, n.args[0])
+    ty = T._pt(n.args[1])
+    if v.t.kind == 'union':
+        return Val(ty, T.unbox(ty, v.z)) if ty.kind != 'none' else E.NONE_VAL()
+    return st.coerce(v, ty)
+
+
+def sf_is_type(st, n):
+    """is_type(x, T): the union value x holds alternative T"""
+    v = E.ev(st, n.args[0])
+    ty = T._pt(n.args[1])
+    if v.t.kind != 'union':
+        return E.mk_bool(z3.BoolVal(v.t == ty or (v.t.kind == ty.kind and ty.is_reflike)))
+    c = T.tester(ty, v.z)
+    if ty.is_reflike and ty.kind != 'ref':
+        tg = TYPEOF(T.PyVal.o_v(v.z)) == R.CLASSES[ty.kind].tag
+        if ty.kind == 'list':
+            tg = z3.Or(tg, TYPEOF(T.PyVal.o_v(v.z)) == R.CLASSES['tuple'].tag)
+        c = z3.And(c, tg)
+    if ty.kind == 'ref' and ty.name in R.CLASSES:
+        c = z3.And(c, st.isinstance_term(T.PyVal.o_v(v.z), ty.name))
+    return E.mk_bool(c)
+
+
+_SYNTACTIC = {'cast': sf_cast, 'is_type': sf_is_type,'old': sf_old, 'implies': sf_implies, 'iff': sf_iff, 'forall': sf_forall,
               'exists': sf_exists, 'let': sf_let, 'isinstance': sf_isinstance}
 
 
@@ -612,11 +682,15 @@ def bi_sorted_by(st, args, kw):
     st.nfresh += 1
     i = z3.Int('i!sb%d' % st.nfresh)
     j = z3.Int('j!sb%d' % st.nfresh)
-    if len(args) > 1:
-        ki = E.apply_fn(st, args[1], [Val(et, z3.Select(s.arr, i))])
-        kj = E.apply_fn(st, args[1], [Val(et, z3.Select(s.arr, j))])
-    else:
-        ki, kj = Val(et, z3.Select(s.arr, i)), Val(et, z3.Select(s.arr, j))
+    st.qdepth += 1
+    try:
+        if len(args) > 1:
+            ki = E.apply_fn(st, args[1], [Val(et, z3.Select(s.arr, i))])
+            kj = E.apply_fn(st, args[1], [Val(et, z3.Select(s.arr, j))])
+        else:
+            ki, kj = Val(et, z3.Select(s.arr, i)), Val(et, z3.Select(s.arr, j))
+    finally:
+        st.qdepth -= 1
     le = B.compare(st, ast.LtE(), ki, kj)
     return E.mk_bool(z3.ForAll([i, j], z3.Implies(z3.And(0 <= i, i <= j, j < s.n), le),
                                patterns=[z3.MultiPattern(z3.Select(s.arr, i), z3.Select(s.arr, j))]))
@@ -627,11 +701,15 @@ def bi_distinct_by(st, args, kw):
     st.nfresh += 1
     i = z3.Int('i!db%d' % st.nfresh)
     j = z3.Int('j!db%d' % st.nfresh)
-    if len(args) > 1:
-        ki = E.apply_fn(st, args[1], [Val(et, z3.Select(s.arr, i))])
-        kj = E.apply_fn(st, args[1], [Val(et, z3.Select(s.arr, j))])
-    else:
-        ki, kj = Val(et, z3.Select(s.arr, i)), Val(et, z3.Select(s.arr, j))
+    st.qdepth += 1
+    try:
+        if len(args) > 1:
+            ki = E.apply_fn(st, args[1], [Val(et, z3.Select(s.arr, i))])
+            kj = E.apply_fn(st, args[1], [Val(et, z3.Select(s.arr, j))])
+        else:
+            ki, kj = Val(et, z3.Select(s.arr, i)), Val(et, z3.Select(s.arr, j))
+    finally:
+        st.qdepth -= 1
     ne = z3.Not(B.values_equal(st, ki, kj))
     return E.mk_bool(z3.ForAll([i, j], z3.Implies(z3.And(0 <= i, i < j, j < s.n), ne),
                                patterns=[z3.MultiPattern(z3.Select(s.arr, i), z3.Select(s.arr, j))]))
@@ -639,7 +717,7 @@ def bi_distinct_by(st, args, kw):
 
 def bi_fresh(st, args, kw):
     v = args[0]
-    base = st.ghost.get('$call_alloc', st.alloc0)
+    base = st.ghost.get("$call_alloc", st.fn_alloc0)
     return E.mk_bool(z3.And(v.z >= base, v.z < st.alloc))
 
 
@@ -755,7 +833,73 @@ def bi_emp(st, args, kw):
     raise Undecided('emp')
 
 
+_TRIG = {}
+
+
+def bi_trig(st, args, kw):
+    """trig(x): always true; an uninterpreted marker used as an explicit quantifier trigger
+    (breaks matching loops between forall-exists invariants)."""
+    v = args[0]
+    srt = T.sort_of(v.t)
+    nm = 'trig_' + T.sort_name(srt)
+    f = z3.Function(nm, srt, z3.BoolSort())
+    if nm not in st.ghost.setdefault('$trig_axioms', set()):
+        st.ghost['$trig_axioms'].add(nm)
+        x = z3.Const('x!trig', srt)
+        st.pc.append(z3.ForAll([x], f(x), patterns=[f(x)]))
+    return E.mk_bool(f(v.z))
+
+
+def bi_mkseq(st, args, kw):
+    a, n = args
+    return Val(T.TSeq(a.t.args[1]), SeqV(a.z, n.z))
+
+
+def bi_is_list(st, args, kw):
+    v = args[0]
+    return E.mk_bool(z3.And(v.z != 0, B.is_real_list(v.z)))
+
+
+def bi_store(st, args, kw):
+    m, k, v = args
+    if m.t.kind == 'mapv':
+        return Val(m.t, z3.Store(m.z, st.coerce(k, m.t.args[0]).z, st.coerce(v, m.t.args[1]).z))
+    if m.t.kind in ('setv', 'set'):
+        sv, et = B.set_value(st, m)
+        return Val(T.TSetV(et), z3.Store(sv, st.coerce(k, et).z, E.truthy(st, v)))
+    raise Undecided('store on %r' % (m.t,))
+
+
+def bi_dict_has(st, args, kw):
+    d, k = args
+    keys, mp, has = st.dict_parts(d.z, *d.t.args)
+    return E.mk_bool(z3.Select(has, st.coerce(k, d.t.args[0]).z))
+
+
+def bi_dict_get(st, args, kw):
+    d, k = args
+    keys, mp, has = st.dict_parts(d.z, *d.t.args)
+    return Val(d.t.args[1], z3.Select(mp, st.coerce(k, d.t.args[0]).z))
+
+
+def bi_dict_keys(st, args, kw):
+    d = args[0]
+    keys, mp, has = st.dict_parts(d.z, *d.t.args)
+    return Val(T.TSeq(d.t.args[0]), keys)
+
+
+def bi_dict(st, args, kw):
+    if not args:
+        return B.new_dict(st, None)
+    h = SPECFUNS.get('py_dict')
+    if h is None:
+        raise Undecided('dict(...) model missing')
+    return h(st, args)
+
+
 _BUILTINS = {
+    'mkseq': bi_mkseq, 'trig': bi_trig, 'is_list': bi_is_list, 'store': bi_store, 'dict_has': bi_dict_has,
+    'dict_get': bi_dict_get, 'dict_keys': bi_dict_keys, 'dict': bi_dict,
     'len': bi_len, 'set': bi_set, 'list': bi_list, 'tuple': bi_tuple, 'min': bi_min, 'max': bi_max,
     'seq': bi_seq, 'setv': bi_setv, 'set_of': bi_set_of, 'sorted_by': bi_sorted_by,
     'distinct_by': bi_distinct_by, 'fresh': bi_fresh, 'is_fresh': bi_fresh, 'ite': bi_ite,
